@@ -35,6 +35,8 @@ pub struct TableSummary {
     pub max_key: Key,
     /// key -> (max seqno, min seqno) stored in this table
     pub keys: BTreeMap<Key, (u64, u64)>,
+    /// key -> every stored (seqno, type) of that key
+    pub entries: BTreeMap<Key, Vec<(u64, u8)>>,
     /// blob file id -> (count, value bytes, on-disk bytes) recounted from the stored pointers
     pub refs: BTreeMap<u64, (usize, u64, u64)>,
     pub problems: Vec<String>,
@@ -110,6 +112,7 @@ pub fn summarize_table(t: &Table) -> TableSummary {
                 let e = s.keys.entry(k.clone()).or_insert((sq, sq));
                 e.0 = e.0.max(sq);
                 e.1 = e.1.min(sq);
+                s.entries.entry(k.clone()).or_default().push((sq, ty));
                 if ty == 4 {
                     let mut r = &item.value[..];
                     match BlobIndirection::decode_from(&mut r) {
@@ -534,8 +537,15 @@ pub fn audit_version(
                     if blobs != blob_list {
                         out.push(finding("C07", "manifest-mismatch:blob_files", format!("v{vid}: version file blob files {blobs:?} != in-memory {blob_list:?}")));
                     }
-                    let mem: BTreeMap<u64, (usize, u64, u64)> =
-                        version.gc_stats().iter().map(|(k, v)| (*k, verif::frag_entry_parts(v))).collect();
+                    // statistics of the blob files the version lists (entries of files that already
+                    // left the version are covered by the "unlisted" check above)
+                    let mem: BTreeMap<u64, (usize, u64, u64)> = version
+                        .gc_stats()
+                        .iter()
+                        .filter(|(k, _)| blob_ids.contains(k))
+                        .map(|(k, v)| (*k, verif::frag_entry_parts(v)))
+                        .collect();
+                    let gc: BTreeMap<u64, (usize, u64, u64)> = gc.into_iter().filter(|(k, _)| blob_ids.contains(k)).collect();
                     if gc != mem {
                         out.push(finding("C09", "manifest-mismatch:gc_stats", format!("v{vid}: version file gc stats {gc:?} != in-memory {mem:?}")));
                     }
